@@ -90,3 +90,7 @@ def cases(tier, seed, ctx=None):
         u = "".join(D.get(ch, ch) for ch in st).encode("utf-8")
         for size in (100, -1):
             yield ("range", [6, u, size], "digits-of-other-scripts")
+    # default-constructed ranges before and after other default-constructed ranges were assigned to
+    for f, t, sz in ((2, 5, 10), (0, 0, 1), (3, -1, 100), (1, 0, -1)):
+        for fl in (0, 1):
+            yield ("range", [7, f, t, sz, fl], "default-constructed")
